@@ -9,6 +9,7 @@ RULE = ("micro APIs over a grid: (response-type form) x (metadata-type form) wit
         "package-relative while a top-level package of the same name exists, package-relative with the enclosing message in "
         "another file, imported or not), a type in a proto sub-package of the API (its file imported / not imported by the service's file), "
         "a type alone in a file of its own that nobody imports and no other method uses, flattened request fields named like the api_core modules (operation, operation_async), "
+        "a second long-running rpc sharing the response type with another metadata type, "
         "the asyncio REST transport (rest_async_io_enabled; packages v2 / v1beta1; with and without Operations http rules), "
         "service-YAML http rules for the operations service with additional bindings (operation names matching each binding in turn), "
         "selective generation with generate_omitted_as_internal (every LRO rpc internal; one internal and one public), "
@@ -79,6 +80,8 @@ def build_api(cell):
     pkg, pypkg = PACKAGES[cell["pkg_index"]]
     d = "/".join(pkg.split("."))
     kinds = {cell["resp"], cell["meta"]} if cell["annotated"] else set()
+    if cell["annotated"] and cell.get("twin_meta"):
+        kinds.add(cell["twin_meta"])
     svc = File(f"{d}/jobs.proto", pkg, deps=list(apigen.STD_DEPS) + ["google/longrunning/operations.proto"])
     more = File(f"{d}/more.proto", pkg)
     types = File(f"{d}/{cell.get('types_name', 'types')}.proto", pkg)
@@ -114,6 +117,10 @@ def build_api(cell):
     if cell.get("internal") == "some":
         # a second, PUBLIC long-running rpc next to the internal one (control)
         s.rpc("Restart", rq.fqn, OPERATION, http=("post", "/v1/{name=jobs/*}:restart"), body="*", lro=lro)
+    if cell["annotated"] and cell.get("twin_meta"):
+        # a second long-running rpc of the same file with the SAME response type and ANOTHER metadata type (declared after Start)
+        s.rpc("Again", rq.fqn, OPERATION, http=("post", "/v1/{name=jobs/*}:again"), body="*",
+              lro=(annotation(cell["resp"], pkg, "Resp"), annotation(cell["twin_meta"], pkg, "Meta")))
     if cell.get("raw_sibling"):
         s.rpc("Kick", rq.fqn, OPERATION, http=("post", "/v1/{name=jobs/*}:kick"), body="*")
     files = [types, more, svc] if cell["order"] == "types-first" else [more, svc, types]
@@ -160,7 +167,7 @@ def internal_rpcs(cell):
     """rpcs of Jobs that selective generation turns into internal _methods of the client."""
     if not cell.get("internal"):
         return []
-    return ["Start"] + (["Kick"] if cell.get("raw_sibling") else [])
+    return ["Start"] + (["Kick"] if cell.get("raw_sibling") else []) + (["Again"] if cell.get("twin_meta") else [])
 
 
 def client_names(cell):
@@ -892,6 +899,35 @@ def e2e_case(args):
             bad(f"{which}: emitted start() wraps {g} but the annotated types are {exp[1]} / {exp[2]}", sig=quirk_sig)
         if exp[0] == "raw" and g != ("raw",):
             bad(f"{which}: un-annotated Operation method: emitted start() is {g}, expected the raw Operation")
+    # ---- the twin rpc (same response type, another metadata type): its own wrapping, judged on its own annotation
+    twin = None
+    if cell["annotated"] and cell.get("twin_meta"):
+        again = next(mm for mm in svc.method if mm.name == "Again")
+        again_py = ("_" if cell.get("internal") else "") + "again"
+        exp2 = expectation(req, pkg, dict(cell, meta=cell["twin_meta"]))
+        gots2 = {False: None, True: None}
+        for fname, is_async in (("client.py", False), ("async_client.py", True)):
+            try:
+                w2 = extract_wrapping(files[base + fname], again_py, files, req)
+            except Exception as e:  # noqa
+                res["oblige"].append((f"T1 extraction of again() from {fname}", False, repr(e)[:300]))
+                continue
+            if w2["wrap"] is None:
+                gots2[is_async] = ("raw",) if "Operation" in w2["returns"] else ("plain",)
+                continue
+            ww = w2["wrap"]
+            gots2[is_async] = ("lro", ww["result_type"], ww["metadata_type"])
+            term = (f"(mkWrap {coq.s(ww['module'])} {coq.s(ww['func'])} {coq.s(ww['first'])} {coq.s(ww['client'])} "
+                    f"{coq.s(ww['result_type'])} {coq.s(ww['kw'])} {coq.s(ww['metadata_type'])})")
+            res["t1"].append((f"{fname} again: from_gapic arguments [{json.dumps(cell, sort_keys=True)}]",
+                              f"match client_output {coq.b(is_async)} (decide {F} {P} {method_term(again)}) with "
+                              f"Some (ReturnsFuture w) => wrapping_eqb w {term} | _ => false end"))
+            if exp2[0] == "future" and gots2[is_async] != ("lro", exp2[1], exp2[2]):
+                bad(f"{fname}: emitted {again_py}() wraps {gots2[is_async]} but rpc Again is annotated with {exp2[1]} / {exp2[2]} "
+                    f"(its sibling Start shares the response type and has another metadata type)")
+        g2 = gots2[False] or gots2[True]
+        if g2 and g2[0] == "lro" and exp2[0] == "future":
+            twin = {"py": again_py, "exp": exp2, "got": g2, "gots": gots2}
     # ---- drive
     if got is None or got[0] not in ("lro", "raw"):
         res["cases"].append(({"cell": cell, "e2e": "generated-only"}, True, ["e2e-generated-only"]))
@@ -925,9 +961,6 @@ def e2e_case(args):
                 h["op_name"] = MULTI_OP_NAMES[hi % 3] if cell.get("ops_http") == "multi" else OP_NAME
             for cn, tr in transports:
                 for h in hs:
-                    # the server speaks the API as declared: it packs the annotated types, whatever the emitted code expects
-                    declared = (exp[1], exp[2]) if exp[0] == "future" else (got[1], got[2])
-                    ops, view = snapshots(d, declared[0], declared[1], h)
                     flat_names = FLAT.get(cell.get("flat"), [])
                     rmode = {"mode": "message", "cls": f"{pypkg}:StartRequest", "b64": d.b64(rq)}
                     if flat_names and h is hs[0]:
@@ -935,10 +968,16 @@ def e2e_case(args):
                         for fnm in flat_names:
                             setattr(rqf, fnm, "x-" + fnm)
                         rmode = {"mode": "kwargs", "cls": f"{pypkg}:StartRequest", "b64": d.b64(rqf), "kwargs": ["name"] + flat_names}
-                    subjects = [("Start", start_py)]
+                    subjects = [("Start", start_py, None)]
                     if cell.get("internal") == "some" and h is hs[0]:
-                        subjects.append(("Restart", "restart"))       # the public LRO rpc of the same service (control)
-                    for rpc, py in subjects:
+                        subjects.append(("Restart", "restart", None))       # the public LRO rpc of the same service (control)
+                    if twin and h in hs[:2]:
+                        subjects.append(("Again", twin["py"], twin))          # same response type, its own metadata type
+                    for rpc, py, own in subjects:
+                        # the server speaks the API as declared: it packs the annotated types, whatever the emitted code expects
+                        e_, g_ = (own["exp"], own["got"]) if own else (exp, got)
+                        declared = (e_[1], e_[2]) if e_[0] == "future" else (g_[1], g_[2])
+                        ops, view = snapshots(d, declared[0], declared[1], h)
                         spec = {"service_module": "jobs", "client": cn, "transport": tr, "method": py,
                                 "request": rmode if rpc == "Start" else {"mode": "message", "cls": f"{pypkg}:StartRequest", "b64": d.b64(rq)},
                                 "consume": "lro", "lro_timeout": 180,   # real-time bound of the polling loop: waits are patched
@@ -946,7 +985,10 @@ def e2e_case(args):
                                                 GET_OP: [{"messages": [d.b64(o)]} for o in ops[1:]]},
                                 "http_script": [{"status": 200, "body": json_format.MessageToJson(o, descriptor_pool=d.pool)} for o in ops]}
                         calls.append(spec)
-                        metas.append({"transport": tr, "history": h, "view": view, "ops": ops, "rpc": rpc})
+                        mt = {"transport": tr, "history": h, "view": view, "ops": ops, "rpc": rpc}
+                        if own:
+                            mt.update(exp=own["exp"], got=own["got"], gots=own["gots"])
+                        metas.append(mt)
         # the asyncio REST transport has its own driver; results are put back in call order
         ra = [i for i, mt in enumerate(metas) if mt["transport"] == "rest_asyncio"]
         rest_of = [i for i in range(len(calls)) if i not in ra]
@@ -956,7 +998,10 @@ def e2e_case(args):
         if ra:
             for i, o in zip(ra, gen.impl("c08_rest_async", {"root": root, "package": pypkg, "calls": [calls[i] for i in ra]})):
                 outc[i] = o
+        exp0, got0, gots0 = exp, got, gots
         for spec, meta, o in zip(calls, metas, outc):
+            # a call on the twin rpc is judged on that rpc's own annotation and emitted wrapping
+            exp, got, gots = meta.get("exp", exp0), meta.get("got", got0), meta.get("gots", gots0)
             tr = meta["transport"]
             tag = f"{spec['client']}/{tr}.{spec['method']}"
             if meta.get("raw"):
@@ -1085,6 +1130,7 @@ def e2e_cells(ctx, n):
         {"pkg_index": 2, "resp": "rel_notimported", "meta": "rel_same", "annotated": True, "order": "svc-first", "flat": "operation"},
         {"pkg_index": 2, "resp": "fq_same", "meta": "rel_imported", "annotated": True, "order": "svc-first", "internal": "some", "raw_sibling": True},
         {"pkg_index": 1, "resp": "fq_subpkg_imported", "meta": "rel_subpkg_notimported", "annotated": True, "order": "types-first"},
+        {"pkg_index": 2, "resp": "empty", "meta": "rel_same", "annotated": True, "order": "svc-first", "twin_meta": "fq_notimported"},
         {"pkg_index": 1, "resp": "fq_imported", "meta": "rel_same", "annotated": True, "order": "types-first", "rest_async": True, "ops_http": "multi"},
         {"pkg_index": 0, "resp": "empty", "meta": "rel_nested_imported", "annotated": True, "order": "types-first", "flat": "operation_async"},
         {"pkg_index": 0, "resp": "rel_notimported", "meta": "fq_same", "annotated": True, "order": "svc-first"},
@@ -1109,6 +1155,8 @@ def e2e_cells(ctx, n):
             c["internal"] = r.choice(["all", "some"])
         if r.random() < 0.3:
             c["rest_async"] = True
+        if r.random() < 0.3 and not c.get("internal"):
+            c["twin_meta"] = r.choice(["rel_same", "rel_imported", "fq_notimported", "empty", "fq_nested"])
         if c not in cells:
             cells.append(c)
     out = []
@@ -1163,7 +1211,7 @@ def run(ctx):
     t = threading.Thread(target=schema)
     t.start()
     try:
-        run_e2e(ctx, e2e_cells(ctx, ctx.n(24, 110)), tier_all=not ctx.quick())
+        run_e2e(ctx, e2e_cells(ctx, ctx.n(25, 110)), tier_all=not ctx.quick())
     finally:
         t.join()
     if errs:
